@@ -51,7 +51,7 @@ func runC07(c *Ctx) {
 		if staller[i] {
 			q = qs[g.Intn(len(qs))]
 		}
-		s := w.NewSess(fmt.Sprintf("s%d", i), "r1", g.Bool(), q, nil)
+		s := NewAnySess(c, w, g, fmt.Sprintf("s%d", i), "r1", q, nil)
 		cl := NewTClient(s, []int{BehEcho, BehEcho, BehProgress, BehError, BehSlow, BehIgnore}[g.Intn(6)], time.Duration([]int{1, 100, 5000}[g.Intn(3)])*time.Millisecond)
 		if !s.Join() {
 			c.Res.Tooling = "traffic session could not join"
@@ -143,6 +143,29 @@ func runC07(c *Ctx) {
 			}
 		}
 		gone := cl.Left || cl.CliClosed || cl.RecvClosed
+		// The one bounded exception: while the dealer holds back (and
+		// retries) a YIELD of this session for a caller that cannot take the
+		// RESULT right now, this session's handler is busy and its later
+		// messages wait - for at most the result-retry period. Callers that
+		// can be in that state here: those with a small queue or that stalled.
+		var heldYields []time.Duration
+		for _, o := range cl.Out {
+			if y, ok := o.Msg.(*wamp.Yield); ok && o.OK {
+				for _, iv := range cl.Invs {
+					if iv.Req != y.Request {
+						continue
+					}
+					for _, caller := range clients {
+						for _, cr := range caller.Calls {
+							if cr.Tag == iv.Tag && (everStalled[caller] || caller.QSize < 64 || DroppedTo(w, caller.ID) > 0) {
+								heldYields = append(heldYields, o.T)
+							}
+						}
+					}
+				}
+			}
+		}
+		const retryPeriod = 66 * time.Second // one minute as documented, the last back-off step rounds it up
 		for _, o := range cl.Out {
 			if !o.OK {
 				continue
@@ -177,6 +200,12 @@ func runC07(c *Ctx) {
 				}
 				c.Violf("request of %s was never answered although it kept reading: %s", cl.Name, Brief(o.Msg))
 				continue
+			}
+			for _, ty := range heldYields {
+				if ty <= at && at-ty <= retryPeriod {
+					instant = false // possibly queued behind a held-back YIELD
+					c.Probe("request_behind_held_yield")
+				}
 			}
 			if instant && at-o.T > 0 {
 				c.Violf("%s of %s, which kept reading, was answered only after %v (unresponsive sessions: %d)", what, cl.Name, at-o.T, nStalled)
